@@ -1150,6 +1150,36 @@ pub fn run_case(case: &Case) {
     }
     match (&case.src, case.adapt) {
         // ---- slice
+        (Src::Slice(vals), Adapt::None) if case.viafrom => {
+            let b = elems(vals);
+            run_generic(case, false, &mut || ConIterOfSlice::from(b.as_slice()));
+        }
+        (Src::Vec(vals), _) if case.viafrom => {
+            let mut once = Some(vals);
+            let spare = case.spare;
+            run_generic(case, false, &mut || {
+                let vals = once.take().expect("vec kinds have one slot");
+                ConIterOfVec::from(elems_spare(vals, spare))
+            });
+        }
+        (Src::Array(vals), _) if case.viafrom => with_array!(elems(vals), arr, {
+            let mut once = Some(arr);
+            run_generic(case, false, &mut || {
+                let arr = once.take().expect("array kinds have one slot");
+                ConIterOfArray::from(arr)
+            });
+        }),
+        (Src::Range(s, e), _) if case.viafrom => {
+            let (s, e) = (*s, *e);
+            run_generic(case, false, &mut || ConIterOfRange::from(s..e));
+        }
+        (Src::Iter(script, hint), _) if case.viafrom => {
+            let mut once = Some(Probe(ProbeCore::new(script.clone(), *hint)));
+            run_generic(case, true, &mut || {
+                let p = once.take().expect("iter kinds have one slot");
+                ConIterOfIter::from(p)
+            });
+        }
         (Src::Slice(vals), Adapt::None) => {
             let b = elems(vals);
             run_generic(case, false, &mut || {
